@@ -19,6 +19,8 @@ import glob
 import json
 import os
 import re
+import signal
+import traceback
 
 from harness.lib import common, emb  # noqa: F401  (emb puts REPO on sys.path)
 
@@ -31,6 +33,51 @@ STAGE_FIELDS = "annotate_types"            # right after resolve_field_reference
 
 
 # ===================================================================== real side
+class _Alarm(BaseException):
+    """raised inside the real code when it has used up its CPU-time allowance"""
+
+
+class HangError(Exception):
+    """The real code did not come to an answer: `site` = innermost front-end frame."""
+    def __init__(self, site, seconds):
+        Exception.__init__(self, "no answer after %.0f s of CPU time; looping in %s" % (seconds, site))
+        self.site = site
+
+
+# CPU seconds (ITIMER_VIRTUAL: independent of the load of the machine); the front end needs
+# well under a second for the module sets used here
+CPU_LIMIT = float(os.environ.get("VERIF_C12_CPU_LIMIT", "10"))
+
+
+def _on_alarm(_signum, _frame):
+    raise _Alarm()
+
+
+def limited(fn):
+    """fn() under the CPU-time limit; a HangError instead of a result if it is exceeded."""
+    old = signal.signal(signal.SIGVTALRM, _on_alarm)
+    signal.setitimer(signal.ITIMER_VIRTUAL, CPU_LIMIT)
+    try:
+        return fn()
+    except _Alarm as a:
+        site = "?"
+        for fr in traceback.extract_tb(a.__traceback__):
+            if os.sep + os.path.join("compiler", "front_end") + os.sep in fr.filename:
+                site = "%s:%s" % (os.path.basename(fr.filename), fr.name)
+        raise HangError(site, CPU_LIMIT) from None
+    finally:
+        signal.setitimer(signal.ITIMER_VIRTUAL, 0)
+        signal.signal(signal.SIGVTALRM, old)
+
+
+def compile_all(files):
+    """The whole front end, under the CPU-time limit."""
+    try:
+        return limited(lambda: emb.compile_text(files))
+    except HangError as h:
+        return None, [], h
+
+
 def parse_files(files, main="m.emb"):
     try:
         ir, _dbg, errors = glue.only_parse_emboss_file(main, test_util.dict_file_reader(files))
@@ -43,7 +90,7 @@ def run_to(ir0, stop):
     """process_ir on a deep copy.  Returns (ir or None, errors, exception or None)."""
     try:
         ir = ir_data_utils.copy(ir0)
-        ir, errors = glue.process_ir(ir, stop)
+        ir, errors = limited(lambda: glue.process_ir(ir, stop))
         return ir, errors, None
     except Exception as e:  # noqa: BLE001
         return None, [], e
@@ -262,7 +309,7 @@ def observe(files, main="m.emb"):
     # the resolver's own error list, before glue.process_ir splits off the groups with a
     # synthetic location
     try:
-        raw = symbol_resolver.resolve_symbols(ir_data_utils.copy(pre))
+        raw = limited(lambda: symbol_resolver.resolve_symbols(ir_data_utils.copy(pre)))
         o["s1_raw"] = real_errors(raw)
         user, hidden = emb_error.split_errors(raw)
         o["hidden_only"] = bool(hidden) and not user
@@ -288,7 +335,8 @@ def observe(files, main="m.emb"):
 
 
 def exc_key(exc):
-    import traceback
+    if isinstance(exc, HangError):
+        return "hang:" + exc.site
     tb = traceback.extract_tb(exc.__traceback__)
     fr = tb[-1] if tb else None
     return "crash:%s:%s:%s" % (os.path.basename(fr.filename) if fr else "?", fr.name if fr else "?",
@@ -336,14 +384,17 @@ def compare_model(o, ans):
     # resolve_field_references
     fr = ans["frefs"]
     if "fuel" in fr:
-        return ["model ran out of fuel"]
+        # the model's distinct out-of-fuel answer: the alias-following loop does not terminate
+        if isinstance(o["s2_exc"], HangError) and exc_key(o["s2_exc"]) == HANG_KEY:
+            return []
+        return ["model ran out of fuel; real: exc=%r errors=%r" % (o["s2_exc"], o.get("s2_errors"))]
     m_errs = [e["err"] for e in fr if isinstance(e, dict) and "err" in e]
     m_crash = any(e == "crash" for e in fr)
     if o["s2_exc"] is not None:
         k = exc_key(o["s2_exc"])
         if k.startswith("crash:symbol_resolver.py:_resolve_field_reference:") and m_crash:
             return []
-        if not k.startswith("crash:symbol_resolver.py"):
+        if not k.startswith("crash:symbol_resolver.py") and k != HANG_KEY:
             return []          # a later/earlier pass (dependency checker) crashed: not the resolver's
         return ["model %s; real raised %s" % ("crash" if m_crash else "no crash", k)]
     if any(e[0].startswith("other:") for e in o["s2_errors"]):
@@ -1595,7 +1646,7 @@ def check_oracle(case, o, chk):
     # a static reference that went through an abbreviation from outside its structure must not
     # survive the whole front end
     if case.get("abbr_outside"):
-        ir, errs, exc = emb.compile_text(case["files"])
+        ir, errs, exc = compile_all(case["files"])
         if exc is None and not errs:
             out.append((None, "module accepted by the whole front end although %r binds through an abbreviation from outside its structure" % (case["abbr_outside"],)))
         else:
@@ -1667,6 +1718,9 @@ CORPUS = [
 # narrow predicate: every error resolve_symbols reported has a synthetic location (a name inside
 # an anonymous `bits:`), so glue.process_ir defers it and goes on with unresolved references
 HIDDEN_KEY = "resolver-errors-all-hidden-as-synthetic"
+# `let g = f.g` where `f` has the enclosing structure as its type: the alias-following loop of
+# _resolve_field_reference never ends
+HANG_KEY = "hang:symbol_resolver.py:_resolve_field_reference"
 
 # pinned inputs of known findings: (key, files, stage)
 FINDING_INPUTS = {
@@ -1677,6 +1731,8 @@ FINDING_INPUTS = {
         {"m.emb": "[requires: Foo.BAR]\nenum Foo:\n  BAR = 1\n"},
     "crash:synthetics.py:_add_anonymous_aliases:AssertionError":
         {"m.emb": "struct Foo:\n  0 [+4]  struct  bar:\n    0 [+1]  bits:\n      0 [+1]  Flag  xx\n"},
+    HANG_KEY:
+        {"m.emb": "struct Foo:\n  0 [+1]  Foo  f\n  let g = f.g\n  let h = g.x\n"},
     HIDDEN_KEY:
         {"m.emb": 'import "imp.emb" as foo\nstruct Xyz:\n  0 [+1]  bits:\n    0 [+4]  UInt  foo\n    4 [+foo]  UInt  baz\n',
          "imp.emb": "struct Baz:\n  0 [+1]  UInt  q\n"},
@@ -1862,7 +1918,7 @@ def known_findings(chk):
         files = k.get("input")
         if isinstance(files, str):
             files = {"m.emb": files}
-        ir, errs, exc = emb.compile_text(files)
+        ir, errs, exc = compile_all(files)
         if exc is not None and exc_key(exc) == k["key"]:
             chk.report_known(k)
         elif k["key"] == HIDDEN_KEY:
